@@ -84,7 +84,7 @@ PROPS = {
             {"name": "runt", "args": []},
         ],
         "signature": lambda req: "run " + (req.split(" ) ")[1].split(" ")[0] if " ) " in req else "?")[:20],
-        "rule": "RAND-free, id-free programs (token grammar incl. EXEC.Y divergence and list explosion) on generated states, eval_push_limit in {-1,0,1,2,3,5,10,40,200,m-1,m,m+1}, growth_cap in {0,1,2,3,5,8,500}: PushInterpreter::run on one state, the documented accounting by repeated step() calls on an identical second state; outcome, step count and final state compared with each other and with the model; non-trivial = at least one step executed",
+        "rule": "RAND-free, id-free programs (token grammar incl. EXEC.Y divergence and list explosion) on generated states, eval_push_limit in {-1,0,1,2,3,5,10,40,200,m-1,m,m+1}, growth_cap in {0,1,2,3,5,8,500}: PushInterpreter::run on one state, the documented accounting by repeated step() calls on an identical second state; outcome, step count and final state compared with each other and with the model; non-trivial = at least one step executed; `runt`: runs whose wall-clock limit is reached - 0 ms, 1-5 ms on a diverging program, 10-22 ms on 100 slow steps (a harness instruction that sleeps 4 ms and records when it was started): the model's run under the clock that trips at the observed iteration, and no slow step may start after the limit has passed",
         "assumptions": ["wall-clock: the model has an abstract clock (theorems hold for every clock). In the `run` scenario eval_time_limit is 10 minutes so TimeLimitExceeded cannot occur; the `runt` scenario reaches the limit (0 ms, and 1-5 ms on a diverging program): the reported run must be the model's run under the clock that is past the limit exactly at the iteration the implementation stopped at, and TimeLimitExceeded must not be reported before the measured wall-clock time reaches the limit"],
     },
     "C06": {
@@ -103,9 +103,10 @@ PROPS = {
             {"name": "registry", "args": ["__PID__"]},
             {"name": "steps", "args": ["*.DEFINE,NAME.QUOTE,CODE.DEFINITION,NAME.DUP,NAME.,CODE.QUOTE,!clean"]},
             {"name": "exec", "args": [exact(q("scope C07")), "400" if tier == "quick" else "4000"]},
+            {"name": "parsebound", "args": []},
         ],
-        "signature": lambda req: sig_exec(req) if req.startswith("( exec") else "step " + req[req.find(" ) ( ") :][:0],
-        "rule": "programs dense in names, the eight DEFINE instructions, NAME.QUOTE and CODE.DEFINITION (names drawn from a small pool so that define / use / quote / redefine interleave), single-stepped with every transition validated against the model and the name-step / definition statements; DEFINE, NAME.QUOTE, CODE.DEFINITION by NAME on generated states with bound and unbound names; non-trivial = the state changed",
+        "signature": lambda req: sig_exec(req) if req.startswith("( exec") else ("parse" if req.startswith("( parse") else "step " + req[req.find(" ) ( ") :][:0]),
+        "rule": "programs dense in names, the eight DEFINE instructions, NAME.QUOTE and CODE.DEFINITION (names drawn from a small pool so that define / use / quote / redefine interleave), single-stepped with every transition validated against the model and the name-step / definition statements; DEFINE, NAME.QUOTE, CODE.DEFINITION by NAME on generated states with bound and unbound names; non-trivial = the state changed; directed NAME.QUOTE - gap of 1-3 non-name items - name fragments; aliases (a name bound to a name, to itself) in one binding of six; `parsebound`: program text that uses, quotes, defines and redefines names ALREADY bound in the state it is parsed into (the second program of a history): a name token must become a NAME item whatever its binding - lookup happens when the interpreter encounters it",
         "assumptions": [],
     },
     "C08": {
@@ -122,9 +123,10 @@ PROPS = {
         "scenarios": lambda tier, q: [
             {"name": "registry", "args": ["__PID__"]},
             {"name": "parse", "args": []},
+            {"name": "parsebound", "args": []},
         ],
         "signature": lambda req: "parse",
-        "rule": "program texts: 60% balanced token trees rendered with random Unicode white space (incl. U+00A0, U+2003, U+3000, U+0085, U+2028), 40% arbitrary token sequences with arbitrary paren balance; tokens: every vector-literal corner (INT[, INT[], INT[1, BOOL[2], FLOAT[NaN], multi-byte before ']' and as last char), numeric corner cases (+5, -0, 2147483648, 1., .5, ., nan, -inf), registered instruction names, multi-byte names, 10^4-character tokens; parsed onto empty and non-empty states; the EXEC stack is compared with an independent recursive-descent tree for balanced inputs, all other stacks with the pre-state; non-trivial = the text contains at least one token",
+        "rule": "program texts: 60% balanced token trees rendered with random Unicode white space (incl. U+00A0, U+2003, U+3000, U+0085, U+2028), 40% arbitrary token sequences with arbitrary paren balance; tokens: every vector-literal corner (INT[, INT[], INT[1, BOOL[2], FLOAT[NaN], multi-byte before ']' and as last char), numeric corner cases (+5, -0, 2147483648, 1., .5, ., nan, -inf), registered instruction names, multi-byte names, 10^4-character tokens; parsed onto empty and non-empty states; the EXEC stack is compared with an independent recursive-descent tree for balanced inputs, all other stacks with the pre-state; non-trivial = the text contains at least one token; one text in 60 is a chain of 60-300 nested lists with tokens on the way down and up",
         "assumptions": ["nesting depth <= 4 in generated trees (native stack depth is outside the model)"],
     },
     "C11": {
@@ -134,7 +136,7 @@ PROPS = {
             {"name": "fsweep", "args": []},
         ],
         "signature": lambda req: "fsweep" if req.startswith("( fsweep") else "roundtrip",
-        "rule": "item trees over {list, int (boundary pool + random), bool, registered instruction, parser-producible and odd names} (exact class), the same plus floats incl. non-finite, subnormal and boundary values (print-parse-print class), arbitrary items, and trees emitted by CodeGenerator::random_code: Item::to_string compared with the model's print, the text parsed back by the real parser and by the model, parse(print t) = t resp. print(parse(print t)) = print t evaluated on the implementation's own outcome (its reparse and its own print of the reparse); non-trivial = the item is in one of the two round-trip classes",
+        "rule": "item trees over {list, int (boundary pool + random), bool, registered instruction, parser-producible and odd names} (exact class), the same plus floats incl. non-finite, subnormal and boundary values (print-parse-print class), arbitrary items, and trees emitted by CodeGenerator::random_code: Item::to_string compared with the model's print, the text parsed back by the real parser and by the model, parse(print t) = t resp. print(parse(print t)) = print t evaluated on the implementation's own outcome (its reparse and its own print of the reparse); non-trivial = the item is in one of the two round-trip classes; names containing brackets; chains of 60-300 nested lists; `fsweep`: print/parse/print stability of f32 bit patterns (every 1024th pattern + windows around all powers of two and ten; thorough: all 2^32)",
         "assumptions": ["white-space splitting of the printed text, and the round trip of every i32 / boolean / registered instruction leaf, are Lean theorems (tok_show, int_roundtrip, instr_leafRT, parse_print_registry); that a single float, vector literal or name prints as one word and classifies back to itself (FloatPrintStable: fmt3 (parse (fmt3 x)) = fmt3 x) is a per-leaf hypothesis about std formatting, validated on every generated tree by the correspondence check and ENUMERATED by the fsweep scenario: every 1024th f32 bit pattern plus windows around all powers of two and ten in the quick tier, all 2^32 bit patterns in the thorough tier (a test, labelled as such)"],
     },
     "C09": {
@@ -146,7 +148,7 @@ PROPS = {
             {"name": "unreg", "args": []},
         ],
         "signature": sig_exec,
-        "rule": "the nine element-wise instructions on an exhaustive grid: length pairs (0..6)^2 (thorough (0..9)^2), equal and unequal, offsets -8..8 plus i32::MIN, MIN+1, MAX-1, MAX, elements from the boundary pools (extreme ints, non-finite floats, zero divisors); all 53 non-random vector instructions by NAME on generated states (empty and non-empty vectors, clamped indices); element-wise results compared with the README rule (overlapSpec), SORT with ordered-permutation; non-trivial = the state changed",
+        "rule": "the nine element-wise instructions on an exhaustive grid: length pairs (0..6)^2 (thorough (0..9)^2), equal and unequal, offsets -8..8 plus i32::MIN, MIN+1, MAX-1, MAX, elements from the boundary pools (extreme ints, non-finite floats, zero divisors); all 53 non-random vector instructions by NAME on generated states (empty and non-empty vectors, clamped indices); element-wise results compared with the README rule (overlapSpec), SORT with ordered-permutation; non-trivial = the state changed; `pairs`: the same instruction twice in a row on one InstructionSet with exactly one operand changed (a result remembered under a partial key shows in the second execution); `unreg`: the two instruction functions the crate ships unregistered (INTVECTOR.*, INTVECTOR./), registered with the public InstructionSet::add and driven on the length x offset grid with zeros among the divisors",
         "exhaustive": True,
         "assumptions": ["float element arithmetic is pinned up to the opaque Float32 operations"],
     },
@@ -168,7 +170,7 @@ PROPS = {
             {"name": "steps", "args": ["LIST.,*.ID,INTVECTOR.FROMINT,!clean"]},
         ],
         "signature": sig_exec,
-        "rule": "the seven LIST record instructions by NAME: stack-id vectors of length 0..6 over the 9 valid ids, the ids of stacks that cannot be loaded (7, 8, 12) and invalid ids (0, 13, -1, 99), repeated ids, all typed stacks with empty and non-empty contents, 0..4 records on CODE (flat, nested, atoms), positions in [-2, depth+2], n in 0..4 plus negative and huge; programs that build id vectors with the *.ID instructions, add records, read them back (LIST.GET) and execute them, single-stepped with every transition validated; outcome compared with the record statements (points-based n-th value, declarative id fold); non-trivial = the state changed",
+        "rule": "LIST.SET on a record that PRINTS like the new record but differs from it (a float beyond the printed decimals, a name spelled like a literal): the replacement must happen; the seven LIST record instructions by NAME: stack-id vectors of length 0..6 over the 9 valid ids, the ids of stacks that cannot be loaded (7, 8, 12) and invalid ids (0, 13, -1, 99), repeated ids, all typed stacks with empty and non-empty contents, 0..4 records on CODE (flat, nested, atoms), positions in [-2, depth+2], n in 0..4 plus negative and huge; programs that build id vectors with the *.ID instructions, add records, read them back (LIST.GET) and execute them, single-stepped with every transition validated; outcome compared with the record statements (points-based n-th value, declarative id fold); non-trivial = the state changed",
         "assumptions": [],
     },
     "C18": {
@@ -179,7 +181,7 @@ PROPS = {
             {"name": "exec", "args": ["GRAPH.", "400" if tier == "quick" else "4000"]},
         ],
         "signature": lambda req: "graphseq" if req.startswith("( graphseq") else sig_exec(req),
-        "rule": "Graph API: every sequence of length 3 (thorough 4) over {add_node, remove_node, add/remove_edge, set_state, set_weight, snapshot, diffsnap} on two initial nodes followed by size and filter queries, and random sequences (<=120 calls) with valid, stale (removed) and never-issued ids, NaN / inf weights, clone then mutate then diff; 600 (thorough 6000) directed diff probes: build, snapshot, apply exactly one change (none / the same weight again / a weight one ulp or 1e-8 away, incl. from +-inf / a state) and diff: empty exactly when nothing changed; after every call the result, the graph (both maps) and the structural invariant are compared with the Layer-0 model and with a plain set model; the 19 GRAPH.* instructions by NAME on generated states holding graphs with nodes, edges and emptied edge lists, ids drawn from the graphs or arbitrary; non-trivial = every sequence (each creates nodes) / a transition that changed the state",
+        "rule": "Graph API: every sequence of length 3 (thorough 4) over {add_node, remove_node, add/remove_edge, set_state, set_weight, snapshot, diffsnap} on two initial nodes followed by size and filter queries, and random sequences (<=120 calls) with valid, stale (removed) and never-issued ids, NaN / inf weights, clone then mutate then diff; 600 (thorough 6000) directed diff probes: build, snapshot, apply exactly one change (none / the same weight again / a weight one ulp or 1e-8 away, incl. from +-inf / a state) and diff: empty exactly when nothing changed; after every call the result, the graph (both maps) and the structural invariant are compared with the Layer-0 model and with a plain set model; the 19 GRAPH.* instructions by NAME on generated states holding graphs with nodes, edges and emptied edge lists, ids drawn from the graphs or arbitrary; non-trivial = every sequence (each creates nodes) / a transition that changed the state; one generated state in 40 holds a GRAPH stack filled to / beyond its capacity of 100; a third of the states have used ring buffers",
         "exhaustive": True,
         "assumptions": ["node ids are relational to the process-global counter: the model takes the observed id and requires it to be fresh", "GRAPH.PRINT / PRINT*DIFF text depends on HashMap order and the shortest-round-trip float printer: only emptiness is compared"],
     },
@@ -215,7 +217,7 @@ PROPS = {
         # every deterministic instruction by NAME on generated states, in a debug and in an optimised build
         "release_compare": lambda tier: [["exec", PROFILE_FILTER, "40" if tier == "quick" else "400"]] + ([["run"], ["stkgrid"]] if tier == "thorough" else []),
         "signature": lambda req: req.split(" ")[1],
-        "rule": "RAND-free, id-free programs on generated states: run, an unrelated run (touching the RNG and the node counter), run again, then 2/4/8/16 threads released from a barrier each running the same program on its own copy of the state; all final states must coincide and equal the model's run; history independence per instruction: every RAND-free, id-free instruction (24, thorough 120 states each; six times as many, with well-formed operands, for the computation-heavy size-operand instructions) run on a fresh thread, then on this thread after six runs of the SAME instruction on perturbed operands (a cache keyed by part of the operands would be warm), then on another fresh thread; 2/8/16 threads creating 20000 (thorough 100000) nodes each through Graph::add_node and GRAPH.NODE*ADD: ids pairwise distinct; the pushr binary on 60 (thorough 400) terminating programs: last printed EXEC / CODE / INT stacks against the model; source inventory of process-global mutable state and randomness sources; build profile: every deterministic instruction by NAME on 40 (thorough 400) generated states each, executed by a debug build (overflow checks on) and by an optimised build (overflow checks off): the two must print identical outcome lines (thorough: also the run and stack-grid scenarios); non-trivial = every case",
+        "rule": "RAND-free, id-free programs on generated states: run, an unrelated run (touching the RNG and the node counter), run again, then 2/4/8/16 threads released from a barrier each running the same program on its own copy of the state; all final states must coincide and equal the model's run; history independence per instruction: every RAND-free, id-free instruction (24, thorough 120 states each; six times as many, with well-formed operands, for the computation-heavy size-operand instructions) run on a fresh thread, then on this thread after six runs of the SAME instruction on perturbed operands (a cache keyed by part of the operands would be warm), then on another fresh thread; 1/2/8/16 threads creating 20000 (thorough 100000) nodes each through Graph::add_node and GRAPH.NODE*ADD, every fifth / seventh node removed again straight away (Graph::remove_node): all ids handed out pairwise distinct; the pushr binary on 60 (thorough 400) terminating programs: last printed EXEC / CODE / INT stacks against the model; source inventory of process-global mutable state and randomness sources; build profile: every deterministic instruction by NAME on 40 (thorough 400) generated states each, executed by a debug build (overflow checks on) and by an optimised build (overflow checks off): the two must print identical outcome lines (thorough: also the run and stack-grid scenarios); non-trivial = every case",
         "assumptions": ["interleavings inside a step are excluded by Rust's ownership rules (each thread owns its PushState), not by the model; schedules are those the OS produces", "the only process-global mutable state is the atomic node counter with a single fetch_add site (checked by the source inventory on every run)"],
     },
     "C15": {
@@ -226,7 +228,7 @@ PROPS = {
             {"name": "steps", "args": ["*.DEFINE,NAME.,EXEC.,CODE.,!c15"]},
         ],
         "signature": lambda req: "growth" if req.startswith("( growth") else sig_exec(req),
-        "rule": "every registered instruction by NAME on generated states (size-like operands up to the envelope cap of 2000, negative and extreme elsewhere): the weight of the state (points, vector elements, characters, queue and graph contents) after the step against a bound that depends only on the weight before; five structure-doubling programs (DUP + LIST / APPEND / CONS under EXEC.Y) stepped 10..45 (thorough ..70) times under the default limits: largest CODE / EXEC item against max_points_in_program; programs dense in names, definitions and EXEC / CODE combinators single-stepped on states whose binding tables hold aliases (a name bound to a name, to itself, in a ring): every step - a literal, a list, a name, an instruction - must return (stall watchdog) and stay inside the weight bound; non-trivial = the state changed",
+        "rule": "every registered instruction by NAME on generated states (size-like operands up to the envelope cap of 2000, negative and extreme elsewhere): the weight of the state (points, vector elements, characters, queue and graph contents) after the step against a bound that depends only on the weight before; five structure-doubling programs (DUP + LIST / APPEND / CONS under EXEC.Y) stepped 10..45 (thorough ..70) times under the default limits: largest CODE / EXEC item against max_points_in_program; programs dense in names, definitions and EXEC / CODE combinators single-stepped on states whose binding tables hold aliases (a name bound to a name, to itself, in a ring): every step - a literal, a list, a name, an instruction - must return (stall watchdog) and stay inside the weight bound; non-trivial = the state changed; every CODE.* / EXEC.* instruction on small items nested 40 deep (work that doubles with the depth is a hang inside one step); CODE.RAND with a negative configured maximum (used by absolute value) far below a large operand of either sign: the item must follow the configured maximum - only growth inside min(|operand|, |maximum|) points is the recorded finding K05",
         "assumptions": ["PARTIAL: wall-clock time and allocator behaviour of a step are runtime behaviour; the model measures growth of the state, which bounds the memory a step retains", "operands above the envelope cap are not executed (they would exhaust the host: that is finding K05 itself)"],
     },
     "C10": {
@@ -237,7 +239,7 @@ PROPS = {
             {"name": "exec", "args": ["*", "60" if tier == "quick" else "600"]},
         ],
         "signature": sig_exec,
-        "rule": "every registered instruction by NAME on rich states in which one stack (each of the ten typed stacks, the INPUT queue and the GRAPH stack, truncated to depth 0, 1 and 2) or a random pair of stacks has been made too short, bystander stacks filled; plus generated rich and sparse states; all public fields compared before/after: fields outside the documented footprint must be unchanged, and when a needed operand is missing every stack must only have been popped and bindings, flags, graphs, index and queues must be unchanged; non-trivial = the state changed",
+        "rule": "every registered instruction by NAME on rich states in which one stack (each of the ten typed stacks, the INPUT queue and the GRAPH stack, truncated to depth 0, 1 and 2) or a random pair of stacks has been made too short, bystander stacks filled; plus generated rich and sparse states; all public fields compared before/after: fields outside the documented footprint must be unchanged, and when a needed operand is missing every stack must only have been popped and bindings, flags, graphs, index and queues must be unchanged; non-trivial = the state changed; the vector length x offset grid (zero divisors inside the overlap: the documented guard of FLOATVECTOR./ evaluated on every such transition); in half of the starved states the NAME on top is already bound, so that a DEFINE giving up half-way has a binding to spoil",
         "exhaustive": True,
         "assumptions": ["guards other than operand presence (zero divisor, id > 0, non-empty vector ...) are covered by the frame statement only; INTVECTOR.SET*INSERT creating an empty vector is documented behaviour"],
     },
@@ -252,7 +254,7 @@ PROPS = {
             {"name": "unreg", "args": []},
         ],
         "signature": sig_exec,
-        "rule": "every registered instruction, driven by NAME through InstructionSet, on generated states (rich and sparse stacks, boundary-biased operands, index-like integers, extreme ints, non-finite floats, empty and unequal vectors); programs from a token grammar over the full registry and from pushr's own random_code, on random initial states (every typed stack, INPUT queue incl. empty bodies, bindings, flags, varied configurations), single-stepped (<=120 steps, every transition validated) and run by the bounded run loop; program texts through the parser; the real EXEC.CMD on harmless operand tuples; a supervised worker with an address-space limit catches aborts; size-like operands of allocating instructions are capped at 2000 and code items at 3000 points (resource envelope); non-trivial = the state changed",
+        "rule": "every registered instruction, driven by NAME through InstructionSet, on generated states (rich and sparse stacks, boundary-biased operands, index-like integers, extreme ints, non-finite floats, empty and unequal vectors); programs from a token grammar over the full registry and from pushr's own random_code, on random initial states (every typed stack, INPUT queue incl. empty bodies, bindings, flags, varied configurations), single-stepped (<=120 steps, every transition validated) and run by the bounded run loop; program texts through the parser; the real EXEC.CMD on harmless operand tuples; a supervised worker with an address-space limit catches aborts; size-like operands of allocating instructions are capped at 2000 and code items at 3000 points (resource envelope); non-trivial = the state changed; `unreg`: the two unregistered instruction functions of the crate registered by the host; a third of the states have used (wrapped) ring buffers; alias rings in the binding tables",
         "assumptions": ["EXEC.CMD is replaced by a stub with the same stack effect in generated cases (no sleep, no spawn)",
                         "resource envelope: operand-controlled allocation sizes bounded (C15 owns the envelope itself)"],
     },
